@@ -463,6 +463,7 @@ fn leak(s: String) -> &'static str {
 }
 
 pub fn run(ctx: &Ctx) {
+    ctx.enable_trace_pass(ctx.tier.pick(2000u64, 20000u64));
     // long streams (counters beyond 255 / 65535; many distinct ids)
     {
         let full = full_alphabet();
@@ -499,7 +500,7 @@ pub fn run(ctx: &Ctx) {
                 })
                 .collect();
             judge_long(&stream, c[2] == 1, &format!("shape {} with {} messages", c[1], n), loc);
-        }).chunk(1));
+        }).chunk(1).trace(4));
     }
     // directly constructed statistics with large counters: merge is an exact sum
     {
@@ -549,6 +550,34 @@ pub fn run(ctx: &Ctx) {
                 }
             }
             loc.outcome("exact sum");
+        }));
+    }
+    // id pairs that collide when an implementation joins application and context id with a
+    // delimiter: (x+d, y) vs (x, d+y), (x+d+y, "") vs ("", x+d+y), for every ASCII punctuation d
+    {
+        let delims: Vec<char> = (0x20u8..0x7F).map(|b| b as char).filter(|c| !c.is_ascii_alphanumeric()).chain(['\t', '\u{1}', 'é']).collect();
+        let nd = delims.len() as u64;
+        let per = 4u64 + 16 + 64;
+        let delims = &delims;
+        ctx.run_family(Family::new("c10.joined_key_collisions", nd * per * 2, format!("for each of {} delimiters d (every ASCII punctuation character, blank, tab, 0x01, 'é'): all streams of 1..=3 messages over the four (application, context) id pairs (A+d, B), (A, d+B), (A+d+B, ''), ('', A+d+B) x storage mode; full merge-history search", nd), move |i, loc| {
+            let storage = i % 2 == 1;
+            let j = i / 2;
+            let d = delims[(j / per) as usize];
+            let mut k = j % per;
+            let syms: Vec<Sym> = {
+                let ad = leak(format!("A{}", d));
+                let db = leak(format!("{}B", d));
+                let adb = leak(format!("A{}B", d));
+                // ids are at most 4 bytes: 'é' makes A+d+B 4 bytes, still fine
+                vec![Sym { ecu: Some("E1"), ext: Some((0, 4, true, ad, "B")) }, Sym { ecu: Some("E1"), ext: Some((0, 2, true, "A", db)) }, Sym { ecu: Some("E1"), ext: Some((0, 4, false, adb, "")) }, Sym { ecu: None, ext: Some((MSTP_CONTROL, 1, false, "", adb)) }]
+            };
+            let len = if k < 4 { 1 } else if k < 20 { k -= 4; 2 } else { k -= 20; 3 };
+            let mut stream = vec![];
+            for _ in 0..len {
+                stream.push(syms[(k % 4) as usize].clone());
+                k /= 4;
+            }
+            judge(&stream, storage, 5, loc);
         }));
     }
     ctx.set_rule("case = message stream (sequence of header symbols); per stream: recording collector, standard collector vs independent tally, and for every composition into contiguous parts an explicit-state BFS over all merge histories (states = lists of real partial StatisticInfo values, deduplicated by exact representation; invariant checked in every state); evidence.states counts streams plus merge-history states; non-trivial = stream of at least 2 messages");
